@@ -16,6 +16,53 @@ def to_tokens(pts, s_int, s):
     return [len(pts)] + [fl(v * s_int / s) for p in pts for v in p]
 
 
+# operand pairs whose results contain pieces that touch another piece from the outside at a vertex or along an edge, next to pockets and
+# shared edges (configurations in which the clipping engine has reported an outside piece as a hole of its neighbour); used under random
+# lattice symmetries
+TOUCHING = [
+    ([[(0, 1), (0, 5), (1, 5), (1, 2), (2, 2), (2, 5), (3, 5), (3, 2), (4, 2), (4, 1)],
+      [(-2, -2), (0, -2), (0, -5), (5, -5), (5, -10), (-2, -10)],
+      [(2, 1), (9, 1), (9, -2), (6, -2), (6, -5), (5, -5), (5, -7), (2, -7)]],
+     [[(0, 1), (0, 5), (1, 5), (1, 2), (2, 2), (2, 5), (3, 5), (3, 2), (4, 2), (4, 1)],
+      [(4, 5), (15, 5), (15, 3), (12, 3), (12, 1), (10, 1), (10, -1), (7, -1), (7, -4), (6, -4), (6, -7), (4, -7)],
+      [(3, 2), (6, 9), (9, 5), (12, 9), (7, 12), (7, 14), (6, 18), (0, 19), (1, 13), (1, 11), (-1, 8)]]),
+    ([[(5, -2), (5, 4), (6, 4), (6, -1), (7, -1), (7, 4), (8, 4), (8, -1), (9, -1), (9, 4), (10, 4), (10, -1), (11, -1), (11, -2)],
+      [(17, 0), (8, -2), (8, 4), (4, 8), (10, 9), (17, 10)],
+      [(-4, 10), (-1, 10), (-1, 13), (1, 13), (1, 14), (3, 14), (3, 15), (4, 15), (4, 18), (6, 18), (6, 19), (-4, 19)]],
+     [[(5, -1), (5, 5), (6, 5), (6, 0), (7, 0), (7, 5), (8, 5), (8, 0), (9, 0), (9, 5), (10, 5), (10, 0), (11, 0), (11, -1)]]),
+    ([[(-2, 10), (1, 10), (1, 9), (-2, 9)], [(-10, 9), (-1, 9), (-1, 14), (-10, 14)]],
+     [[(-3, 11), (0, 11), (0, 10), (-3, 10)], [(-2, 13), (5, 13), (5, 12), (7, 12), (7, 11), (-2, 11)], [(-8, -3), (-10, -14), (-11, -9)]]),
+]
+
+
+def touching_pair(rnd):
+    A, B = rnd.choice(TOUCHING)
+    if rnd.random() < 0.5:
+        A, B = B, A
+    k = rnd.randrange(8)
+    dx, dy = rnd.randrange(-6, 7), rnd.randrange(-6, 7)
+
+    def tr(p):
+        x, y = p
+        if k & 4:
+            x = -x
+        for _ in range(k & 3):
+            x, y = -y, x
+        return (x + dx, y + dy)
+    out = []
+    for grp in (A, B):
+        g2 = []
+        for poly in grp:
+            q = [tr(v) for v in poly]
+            if rnd.random() < 0.5:
+                q.reverse()
+            r0 = rnd.randrange(len(q))
+            g2.append(q[r0:] + q[:r0])
+        rnd.shuffle(g2)
+        out.append(g2)
+    return out
+
+
 def make_case(i):
     sd = vfw.seed() * 1000003 + 50000 + i
     rnd = random.Random(sd)
@@ -33,6 +80,9 @@ def make_case(i):
     if rnd.random() < 0.25:        # B = translated copy of a member of A: shared edges / full overlap
         dx, dy = rnd.choice([0, step, -step, 2 * step]), rnd.choice([0, step, -2 * step])
         B[0] = [(x + dx, y + dy) for x, y in A[0]]
+    touching = random.Random(sd + 5).random() < 0.04
+    if touching:
+        A, B = touching_pair(random.Random(sd + 6))
     c = Case('B%d' % i, timeout=60)
     c.op('arr', 'new')
     for p in A:
@@ -61,7 +111,7 @@ def make_case(i):
         c.op('boolean', x, y, op, fl(s))
         plan.append(('a%d' % h, x, y, op))
         h += 1
-    c.meta = {'A': A, 'B': B, 's': s, 'K': K, 'style': style, 'plan': plan, 'seed': sd}
+    c.meta = {'A': A, 'B': B, 's': s, 'K': K, 'style': style, 'plan': plan, 'seed': sd, 'touching': touching}
     return c
 
 
@@ -181,6 +231,8 @@ def judge(chk, c, evs):
     if abs(a_xor - (a_ab + a_ba)) > slack:
         chk.violation('C05/area/xor=not+not', 'area(xor) %d/2 != area(A-B) %d/2 + area(B-A) %d/2 (slack %d/2)' % (a_xor, a_ab, a_ba, slack), rp)
     chk.cov('cases_judged')
+    if m.get('touching'):
+        chk.cov('touching_configurations')
     if nontrivial and any(groups[h] for h in ('a2', 'a3', 'a4', 'a5')):
         chk.fp(c.id)
 
